@@ -229,6 +229,34 @@ pub fn blob_chunks(chunks: &'static [&'static [u8]]) -> StreamingBlob {
     StreamingBlob::wrap(futures::stream::iter(chunks.iter().map(|c| Ok::<_, std::io::Error>(Bytes::from_static(c)))))
 }
 
+/// a stream whose readiness is scripted: `None` = Pending once (waking the task at once), `Some(bytes)` = a chunk
+pub struct ScriptStream {
+    steps: std::collections::VecDeque<Option<&'static [u8]>>,
+}
+impl futures::Stream for ScriptStream {
+    type Item = Result<Bytes, std::io::Error>;
+    fn poll_next(mut self: std::pin::Pin<&mut Self>, cx: &mut std::task::Context<'_>) -> std::task::Poll<Option<Self::Item>> {
+        match self.steps.pop_front() {
+            None => std::task::Poll::Ready(None),
+            Some(None) => {
+                cx.waker().wake_by_ref();
+                std::task::Poll::Pending
+            }
+            Some(Some(b)) => std::task::Poll::Ready(Some(Ok(Bytes::from_static(b)))),
+        }
+    }
+}
+pub fn blob_script(steps: &'static [Option<&'static [u8]>]) -> StreamingBlob {
+    StreamingBlob::wrap(ScriptStream { steps: steps.iter().copied().collect() })
+}
+/// a stream whose chunks become available only after a (virtual) delay: the consumer is woken by a timer, not by the stream
+pub fn blob_delayed(chunks: &'static [&'static [u8]], ms: u64) -> StreamingBlob {
+    StreamingBlob::wrap(futures::stream::unfold(0usize, move |i| async move {
+        tokio::time::sleep(std::time::Duration::from_millis(ms)).await;
+        chunks.get(i).map(|c| (Ok::<_, std::io::Error>(Bytes::from_static(c)), i + 1))
+    }))
+}
+
 pub static BLOB_4097: std::sync::LazyLock<Vec<u8>> = std::sync::LazyLock::new(|| (0..4097u32).map(|i| (i % 251) as u8).collect());
 
 impl Gen for StreamingBlob {
@@ -248,6 +276,13 @@ impl Gen for StreamingBlob {
             mk("chunks[h,e,l,l,o]", || blob_chunks(&[b"h", b"e", b"l", b"l", b"o"])),
             mk("chunks['','']", || blob_chunks(&[b"", b""])),
             mk("chunks[]", || blob_chunks(&[])),
+            // ... nor when its chunks become ready: Pending before the first chunk / between chunks / before the end, and chunks
+            // that arrive on a timer
+            mk("pending-first", || blob_script(&[None, Some(b"hello")])),
+            mk("pending-between", || blob_script(&[Some(b"he"), None, None, Some(b"llo")])),
+            mk("pending-before-end", || blob_script(&[Some(b"hello"), None])),
+            mk("pending-everywhere", || blob_script(&[None, Some(b"h"), None, Some(b""), None, Some(b"ello"), None])),
+            mk("chunks-on-a-timer", || blob_delayed(&[b"he", b"", b"llo"], 7)),
         ]
     }
 }
